@@ -155,11 +155,8 @@ Lemma request_shaped c now s m s' rp :
   handleRequest c now s m = (s', rp) -> shaped (tbl s) (getcid m) (is_ack_reply rp) (tbl s').
 Proof.
   unfold handleRequest. set (k := getcid m).
-  set (req0 := match m_req m with Some r => r | None => 0 end).
   set (sid := match m_sid m with Some r => r | None => 0 end).
-  destruct (if negb (sid =? 0) then (Selecting, req0)
-            else if (req0 =? 0) && negb (m_src m =? ip_bcast) then (Renewing, m_ciaddr m)
-            else if req0 =? 0 then (Rebinding, m_ciaddr m) else (Rebooting, req0)) as [oper req].
+  destruct (classify m) as [oper req].
   destruct (req =? 0); [intros H; inversion H; subst; apply shaped_refl|].
   destruct (findOrCreate c s k (m_chaddr m)) as [s1 l] eqn:Ef.
   assert (Hgen : forall a, shaped (tbl s) k a (tbl s1) /\ (kept (tbl s) l \/ made k a l) /\ l_cid l = k)
